@@ -13,7 +13,7 @@ def add(i, engine, cat, tech, text, note, ref):
 FAMILIES = (" Besides depth-bounded histories over small alphabets the scopes contain explicit families enumerated completely: MS-S scale (classes of 20..129 entries, "
             "20..301 class lines, inline depth 31..100, names of 127..65537 bytes), MS-U character classes (105 special characters in every kind of name; sort pool pairs/triples; "
             "synthetic-file name shapes), MS-R name relations, MS-S(f) sorted runs (one method with 16..100 ascending disjoint ranges plus one irregular entry - inverted, enclosing, range-less, 0:0, duplicate - at every position), "
-            "MS-M R8 metadata comments (rewriteFrame / synthesized / outline / outlineCallsite / residualsignature at column 0 and indented, at every position of a small mapping), MS-V late first member (48..60 member-less class / header / noise lines in front of the first class with members), "MS-W file-level headers (compiler R8 / D8 / ProGuard, compiler_version, min_api, pg_map_id ... before classes whose members are not ordered by obfuscated name), and the 7 corpus files. Q(M) also contains the format's magic file name as the frame's own file, ', '-spelled parameter lists, and known names with module prefixes / a '$$' suffix.")
+            "MS-M R8 metadata comments (rewriteFrame / synthesized / outline / outlineCallsite / residualsignature at column 0 and indented, at every position of a small mapping), MS-V late first member (48..60 member-less class / header / noise lines in front of the first class with members), MS-W file-level headers (compiler R8 / D8 / ProGuard, compiler_version, min_api, pg_map_id ... before classes whose members are not ordered by obfuscated name), and the 7 corpus files. Q(M) also contains the format's magic file name as the frame's own file, ', '-spelled parameter lists, and known names with module prefixes / a '$$' suffix.")
 MODEL_NOTE = ("Trusted: rustc/std; the reference model pgmc/src/model.rs (a re-statement of the property text evaluated on the "
               "generating AST - the oracle contains no parser); the AST printer. Bounded: alphabets and depths listed in the evidence "
               "file; data values outside the alphabets are not explored.")
